@@ -80,7 +80,7 @@ End == /\ Ev("end") /\ Consume
        /\ \A k \in caps : k \in Range(shut)
        /\ UNCHANGED <<hostile, reacted, lcalls, lresults, closes, closereturns, done, tclosed, shut, caps, hostileq, localuse>>
 Passive == /\ (Ev("app-start") \/ Ev("app-cancelled") \/ Ev("reported") \/ Ev("fault") \/ Ev("quiesce") \/ Ev("l-bootstrap")
-               \/ Ev("l-handle") \/ Ev("l-release") \/ Ev("peer-deliver") \/ Ev("peer-echo"))
+               \/ Ev("l-handle") \/ Ev("l-release") \/ Ev("peer-deliver") \/ Ev("peer-echo") \/ Ev("held") \/ Ev("hold-expired") \/ Ev("released"))
            /\ Consume /\ UNCHANGED <<hostile, reacted, lcalls, lresults, closes, closereturns, done, tclosed, shut, caps, hostileq, localuse>>
 \* there is no action for: "send-after-close", "close-hung", "not-done", a "view" that is not free
 
